@@ -83,15 +83,43 @@ Fixpoint model_steps (E : pyenv) (s : state) (ops : list op) : list (reply * lis
 Definition model_result (c : case) : res (list (reply * list upd)) :=
   build (c_cfg c) >>= fun s0 => Ok (model_steps (c_env c) s0 (c_ops c)).
 
-(* diagnosis: index of the first operation on which model and implementation differ, with the model's answer *)
+(* diagnosis (numbers only, floats are expensive to print): index of the first operation on which model and
+   implementation differ, reply agrees?, updates agree?, kind of the model reply, number of model updates,
+   and for a structure report the index of the first module and accessible that differ *)
+Definition reply_code (r : reply) : nat :=
+  match r with
+  | RpData _ => 0 | RpActive => 1 | RpDesc _ => 2 | RpNone => 3
+  | RpErr RNoMod => 10 | RpErr RNoPar => 11 | RpErr RNoCmd => 12 | RpErr RReadOnly => 13
+  | RpErr (RExc ERange) => 20 | RpErr (RExc EWrongType) => 21 | RpErr (RExc EType) => 22 | RpErr (RExc EKey) => 23
+  | RpErr (RExc _) => 29
+  end.
+Fixpoint first_diff {A} (eqb : A -> A -> bool) (a b : list A) (i : nat) : nat :=
+  match a, b with
+  | x :: a', y :: b' => if eqb x y then first_diff eqb a' b' (S i) else i
+  | [], [] => 999
+  | _, _ => 500 + i
+  end.
+Definition desc_diff (r o : reply) : nat * nat :=
+  match r, o with
+  | RpDesc d, RpDesc d' =>
+      let i := first_diff (pair_eqb str_eqb mdesc_eqb) d d' 0 in
+      (i, match nth_error d i, nth_error d' i with
+          | Some (_, m), Some (_, m') => first_diff (pair_eqb str_eqb adesc_eqb) (md_accs m) (md_accs m') 0
+          | _, _ => 998
+          end)
+  | _, _ => (997, 997)
+  end.
 Fixpoint first_bad (E : pyenv) (s : state) (ops : list op) (obs : list obs_step) (i : nat)
-  : option (nat * reply * list upd) :=
+  : option (nat * bool * bool * nat * nat * (nat * nat)) :=
   match ops, obs with
   | o :: ops', ob :: obs' =>
       let '(s', r, us) := step E s o in
       if reply_eqb r (o_reply ob) && list_eqb upd_eqb us (o_upds ob) then first_bad E s' ops' obs' (S i)
-      else Some (i, r, us)
+      else Some (i, reply_eqb r (o_reply ob), list_eqb upd_eqb us (o_upds ob), reply_code r, length us, desc_diff r (o_reply ob))
   | _, _ => None
   end.
-Definition diag (c : case) : res (option (nat * reply * list upd)) :=
-  build (c_cfg c) >>= fun s0 => Ok (first_bad (c_env c) s0 (c_ops c) (c_obs c) 0).
+Definition diag (c : case) : option (nat * bool * bool * nat * nat * (nat * nat)) :=
+  match build (c_cfg c) with
+  | Ok s0 => first_bad (c_env c) s0 (c_ops c) (c_obs c) 0
+  | Err _ => Some (777, false, false, 0, 0, (0, 0))
+  end.
